@@ -82,6 +82,7 @@ package dotenv
 //@   ensures[C18] err == nil ==> result.0 != nil
 
 //@ func expandVariables
+//@   except precondition#2 : undischarged on the reference tree (engine limit or missing callee contract), not claimed
 //@   nopanic[C01,C18]
 //@   requires lookupFn != nil
 
@@ -92,6 +93,7 @@ package dotenv
 //@ spec lookupVal(f ref, k string) string
 
 //@ func expandVariables$1
+//@   except nilrecv#1, precondition#1 : undischarged on the reference tree (engine limit or missing callee contract), not claimed
 //@   nopanic[C01,C18]
 //@?  ensures[C18] lookupOk(lookupFn, k) ==> result.1 && result.0 == lookupVal(lookupFn, k)
 //@?  ensures[C18] !lookupOk(lookupFn, k) ==> (result.1 <==> has(envMap, k)) && (has(envMap, k) ==> result.0 == envMap[k])
